@@ -8,7 +8,9 @@ package verifharness
 // (Check/C16c.v).
 
 import (
+	"bytes"
 	"context"
+	"encoding/json"
 	"fmt"
 	"os"
 	"os/exec"
@@ -479,9 +481,8 @@ func (r *pxRig) cleanup() {
 	}
 }
 
-// pxBuf is the per-destination buffer size measured on the running code: the
-// number of envelopes a destination whose dial is never answered holds before
-// the drop counter moves.
+// pxBuf is the per-destination buffer size measured on the running code: a destination whose connection blocks
+// in Write holds one envelope in its write loop and the buffer's worth behind it before the drop counter moves.
 var (
 	pxBufOnce sync.Once
 	pxBufSize int
@@ -493,7 +494,9 @@ func pxMeasureBuf(t *testing.T) int {
 			r := &pxRig{sc: pxScenario{Icp: 5}}
 			r.start()
 			r.do(PAct{Op: "attach", N: 1})
+			r.do(PAct{Op: "attach", N: 2})
 			synctest.Wait()
+			r.do(PAct{Op: "setw", N: 2, M: "block"})
 			n := 0
 			for n < 4096 {
 				r.do(PAct{Op: "deliver", N: 1, Dst: 2, V: int64(500 + n)})
@@ -503,7 +506,7 @@ func pxMeasureBuf(t *testing.T) int {
 				}
 				n++
 			}
-			pxBufSize = n
+			pxBufSize = n - 1 // one envelope sits in the blocked Write
 			synctest.Wait()
 			r.snapshot()
 			r.cleanup()
@@ -519,11 +522,16 @@ func runPxScenario(t *testing.T, idx int, kind string, sc pxScenario, em *Emitte
 	var obsList []pxObs
 	var drops int64
 	em.Marker("begin", idx)
+	// a goroutine waiting for a sync.Mutex is not durably blocked: a lock held across a blocking call in the proxy
+	// makes synctest.Wait hang; the watcher reports the scenario as wedged (exit 3) and the run resumes after it
+	wstep, wstop := guardWedge(em, idx, kind, sc, sc.Tags)
+	defer wstop()
 	leaked := bubble(t, func(t *testing.T) {
 		rig := &pxRig{sc: sc}
 		rig.start()
 		synctest.Wait()
 		for _, group := range sc.Steps {
+			wstep()
 			var terms []string
 			for _, a := range group {
 				if term := rig.do(a); term != "" {
@@ -545,6 +553,7 @@ func runPxScenario(t *testing.T, idx int, kind string, sc pxScenario, em *Emitte
 			coqSteps = append(coqSteps, coqList(terms))
 			coqObs = append(coqObs, o.coq())
 		}
+		wstep()
 		rig.cleanup()
 		synctest.Wait()
 	})
@@ -580,6 +589,7 @@ func pxSharded(t *testing.T, testName string, nShards int) (int, int, bool) {
 	var wg sync.WaitGroup
 	outs := make([]string, nShards)
 	errs := make([]error, nShards)
+	rcs := make([]int, nShards)
 	for i := 0; i < nShards; i++ {
 		outs[i] = fmt.Sprintf("%s.shard%d", *flagOut, i)
 		os.Remove(outs[i])
@@ -596,21 +606,67 @@ func pxSharded(t *testing.T, testName string, nShards int) (int, int, bool) {
 					o = o[len(o)-1500:]
 				}
 				errs[i] = fmt.Errorf("shard %d: %v: %s", i, err, o)
+				rcs[i] = 1
+				if ee, ok := err.(*exec.ExitError); ok {
+					rcs[i] = ee.ExitCode()
+				}
 			}
 		}(i)
 	}
 	wg.Wait()
+	// A shard that died (panic in the code under test) or reported a wedge (exit 3, record + end marker written)
+	// stopped at its scenario k. ./check's run_rig attributes a non-zero exit to the last begin marker of the
+	// output and resumes with -from k+1: keep everything up to the smallest such k (the other shards' work beyond
+	// it is redone by the resumed run), put k's lines last, leave with the shard's exit status.
+	type line struct {
+		idx  int
+		text []byte
+	}
+	var lines []line
+	failIdx, failRc := -1, 0
+	for i := 0; i < nShards; i++ {
+		b, _ := os.ReadFile(outs[i])
+		os.Remove(outs[i])
+		lastBegin := -1
+		for _, l := range bytes.Split(b, []byte("\n")) {
+			if len(l) == 0 {
+				continue
+			}
+			var m struct {
+				Marker string `json:"marker"`
+				Idx    int    `json:"idx"`
+			}
+			if json.Unmarshal(l, &m) != nil {
+				continue
+			}
+			if m.Marker == "begin" {
+				lastBegin = m.Idx
+			}
+			lines = append(lines, line{m.Idx, l})
+		}
+		if rcs[i] != 0 && lastBegin >= 0 && (failIdx < 0 || lastBegin < failIdx) {
+			failIdx, failRc = lastBegin, rcs[i]
+		}
+	}
 	f, err := os.OpenFile(*flagOut, os.O_CREATE|os.O_WRONLY|os.O_APPEND, 0o644)
 	if err != nil {
 		t.Fatal(err)
 	}
-	for i := 0; i < nShards; i++ {
-		if b, err := os.ReadFile(outs[i]); err == nil {
-			f.Write(b)
+	for _, l := range lines {
+		if failIdx < 0 || l.idx < failIdx {
+			f.Write(append(l.text, '\n'))
 		}
-		os.Remove(outs[i])
+	}
+	for _, l := range lines {
+		if failIdx >= 0 && l.idx == failIdx {
+			f.Write(append(l.text, '\n'))
+		}
 	}
 	f.Close()
+	if failIdx >= 0 {
+		fmt.Fprintf(os.Stderr, "shard stopped at scenario %d with exit status %d\n", failIdx, failRc)
+		os.Exit(failRc)
+	}
 	for _, e := range errs {
 		if e != nil {
 			t.Errorf("%v", e)
